@@ -182,3 +182,30 @@ _run0 = run
 def run(cx):
     _run0(cx)
     asn1(cx)
+
+
+def enc_agnostic(cx):
+    """S-ENC-AGNOSTIC: decoders decide on points, never on one particular byte encoding of a point
+    (SEC1 allows compressed, uncompressed and hybrid forms of the same point)"""
+    n = 0
+    for name, fn in sorted(cx.F.fns.items()):
+        if not name.startswith('gm_sm2::pkcs::'):
+            continue
+        P = Prov(fn, cx.F); cn = Canon(fn, P)
+        for b, p, te, fe in G.bool_switches(fn, P):
+            n += 1
+            if p.kind == 'eq' and len(p.args) == 2:
+                a0, a1 = cn.c(p.args[0]), cn.c(p.args[1])
+                for x, y in ((a0, a1), (a1, a0)):
+                    if ('to_bytes(' in x or x.startswith('BE(')) and '$' in y and 'to_bytes(' not in y:
+                        cx.violate('S-ENC-AGNOSTIC', fn.short, 'accept/reject decision compares caller bytes (%s) with one fixed encoding (%s): other valid encodings of the same point are rejected' % (FR.short(y, 60), FR.short(x, 60)), G.where(fn, b))
+    cx.add('S-ENC-AGNOSTIC', 'pkcs', True, 'no decoder in gm_sm2::pkcs compares input bytes with a fixed re-encoding of a point (%d branch conditions inspected)' % n)
+    cx.floor('S-ENC-AGNOSTIC', 'pkcs/fns', sum(1 for k in cx.F.fns if k.startswith('gm_sm2::pkcs::')), 6, 'functions in gm_sm2::pkcs')
+
+
+_run2 = run
+
+
+def run(cx):
+    _run2(cx)
+    enc_agnostic(cx)
